@@ -27,5 +27,9 @@ mod backpressure;
 pub mod downlink;
 mod timeout_coord;
 
+/// Re-exports of crate-private components for the external verification harness.
+#[cfg(feature = "verif_hooks")]
+pub mod verif;
+
 /// Ends of two independent channels (for example the input and output channels of an agent).
 type Io = (ByteWriter, ByteReader);
